@@ -1,7 +1,547 @@
-//! C10: correspondence + oracle runs (sub-commands `c10` / `c10-*`).
+//! C10: IPv4 fragmentation.  Sub-commands `c10` (random datagrams through chains of MTUs) and
+//! `c10-sweep` (every MTU of a range x payload lengths around the multiples of the block size).
+//!
+//! Op lines (the same lines drive the Lean model):
+//!   dgram <ihl> <tos> <tl> <ident> <fo> <flags> <ttl> <proto> <cksum> <src> <dst> <body>
+//!   frag <mtu>
+//! `<body>` = `h:<hex>` or `g:<seed>:<len>`.  `frag` runs the real `fragmentation::fragment` on
+//! every current piece (one hop) and prints the whole `Fragments` value per piece.
+//!
+//! The oracle is the property, written against the ORIGINAL datagram and independent of the
+//! fragmenter: after every hop the travelling pieces must fit, concatenate to the original
+//! payload, sit at 8-byte aligned offsets recorded in their headers, carry MF on all but the
+//! piece that ends the original datagram and keep every other field; fitting datagrams pass
+//! through, DF datagrams that do not fit are discarded; no panic.
+use elvis_core::protocols::ipv4::fragmentation::{fragment, Fragments};
+use elvis_core::protocols::ipv4::ipv4_parsing::Ipv4Header;
+use elvis_core::Message;
 use hcommon::*;
 
+#[derive(Clone, Copy, PartialEq, Eq, Debug)]
+pub struct H {
+    ihl: u8,
+    tos: u8,
+    tl: u16,
+    ident: u16,
+    fo: u16,
+    flags: u8,
+    ttl: u8,
+    proto: u8,
+    ck: u16,
+    src: u32,
+    dst: u32,
+}
+
+impl H {
+    fn to_real(self) -> Ipv4Header {
+        Ipv4Header {
+            ihl: self.ihl,
+            type_of_service: self.tos.into(),
+            total_length: self.tl,
+            identification: self.ident,
+            fragment_offset: self.fo,
+            flags: self.flags.into(),
+            time_to_live: self.ttl,
+            protocol: self.proto,
+            checksum: self.ck,
+            source: self.src.into(),
+            destination: self.dst.into(),
+        }
+    }
+    fn from_real(h: &Ipv4Header) -> H {
+        H {
+            ihl: h.ihl,
+            tos: h.type_of_service.as_u8(),
+            tl: h.total_length,
+            ident: h.identification,
+            fo: h.fragment_offset,
+            flags: h.flags.as_u8(),
+            ttl: h.time_to_live,
+            proto: h.protocol,
+            ck: h.checksum,
+            src: h.source.to_u32(),
+            dst: h.destination.to_u32(),
+        }
+    }
+    fn show(&self) -> String {
+        format!(
+            "{},{},{},{},{},{},{},{},{},{},{}",
+            self.ihl, self.tos, self.tl, self.ident, self.fo, self.flags, self.ttl, self.proto, self.ck, self.src, self.dst
+        )
+    }
+    fn df(&self) -> bool {
+        self.flags & 2 != 0
+    }
+    fn mf(&self) -> bool {
+        self.flags & 1 != 0
+    }
+}
+
+pub fn gen_body(seed: u64, len: usize) -> Vec<u8> {
+    (0..len as u64).map(|i| (((seed + i).wrapping_mul(2654435761) / 65536) % 256) as u8).collect()
+}
+
+pub fn parse_body(s: &str) -> Option<Vec<u8>> {
+    let p: Vec<&str> = s.split(':').collect();
+    match p.as_slice() {
+        ["h", hx] => Some(unhex(hx)),
+        ["g", seed, len] => Some(gen_body(seed.parse().ok()?, len.parse().ok()?)),
+        _ => None,
+    }
+}
+
+pub fn fnv(b: &[u8]) -> u64 {
+    let mut h: u64 = 0xcbf29ce484222325;
+    for x in b {
+        h = (h ^ *x as u64).wrapping_mul(0x100000001b3);
+    }
+    h
+}
+
+pub fn digest(b: &[u8]) -> String {
+    if b.len() <= 32 {
+        format!("{}:{}", b.len(), hex(b))
+    } else {
+        format!("{}:#{}", b.len(), fnv(b))
+    }
+}
+
+/// long result lines are cut to head + length + FNV-64 of the whole + tail (same rule in the driver)
+pub fn compress(s: &str) -> String {
+    if s.len() <= 1200 {
+        s.to_string()
+    } else {
+        format!("{} ...[{}:#{}]... {}", &s[..500], s.len(), fnv(s.as_bytes()), &s[s.len() - 300..])
+    }
+}
+
+fn show_frag(h: &Ipv4Header, m: &Message) -> String {
+    format!("{{{}|{}}}", H::from_real(h).show(), digest(&m.to_vec()))
+}
+
+/// Panic class = kind (from the panic message) + site (from tokens of the source line, so that
+/// renaming a temporary or splitting an expression does not change the identity).
+fn classify(p: &PanicInfo) -> String {
+    let text = source_line_text(&p.file, p.line);
+    let t = text.as_str();
+    if p.file.ends_with("message.rs") && t.starts_with("assert!(len <= self.len)") {
+        return "panic:assert:cut".into();
+    }
+    if !p.file.ends_with("fragmentation.rs") {
+        return format!("panic:other:{}:{}", p.file.rsplit('/').next().unwrap_or(""), t.replace(' ', "_"));
+    }
+    let sub = p.msg.contains("subtract with overflow");
+    let add = p.msg.contains("add with overflow");
+    if sub && t.contains("mtu") {
+        "panic:sub-overflow:fragment_blocks".into()
+    } else if sub && t.contains("total_length") {
+        "panic:sub-overflow:rest_total_length".into()
+    } else if add && t.contains("fragment_offset") {
+        "panic:add-overflow:fragment_offset".into()
+    } else if add && t.contains("total_length") {
+        "panic:add-overflow:first_total_length".into()
+    } else {
+        format!("panic:other:fragmentation.rs:{}", t.replace(' ', "_"))
+    }
+}
+
+/// the property's precondition on the original datagram (MTU checked per hop)
+fn pre(h: &H, body_len: usize) -> bool {
+    h.ihl == 5 && h.tl as usize == 20 + body_len && h.fo <= 8191
+}
+
+pub struct Exec {
+    orig: Option<(H, Vec<u8>)>,
+    /// the oracle applies while the original satisfies Pre and every MTU so far was >= 68
+    in_pre: bool,
+    cur: Vec<(Ipv4Header, Message)>,
+    pub fragmented_hops: u32,
+}
+
+impl Exec {
+    pub fn new() -> Self {
+        Exec { orig: None, in_pre: false, cur: vec![], fragmented_hops: 0 }
+    }
+
+    pub fn apply(&mut self, line: &str, out: &mut Out) {
+        let w: Vec<&str> = line.split_whitespace().collect();
+        match w.as_slice() {
+            ["dgram", f @ .., body] if f.len() == 11 => {
+                let n: Vec<Option<u64>> = f.iter().map(|s| s.parse::<u64>().ok()).collect();
+                let (Some(b), true) = (parse_body(body), n.iter().all(|x| x.is_some())) else {
+                    return out.line(line, "bad-op");
+                };
+                let n: Vec<u64> = n.into_iter().map(|x| x.unwrap()).collect();
+                let h = H {
+                    ihl: n[0] as u8,
+                    tos: n[1] as u8,
+                    tl: n[2] as u16,
+                    ident: n[3] as u16,
+                    fo: n[4] as u16,
+                    flags: n[5] as u8,
+                    ttl: n[6] as u8,
+                    proto: n[7] as u8,
+                    ck: n[8] as u16,
+                    src: n[9] as u32,
+                    dst: n[10] as u32,
+                };
+                self.in_pre = pre(&h, b.len());
+                out.count(if self.in_pre { "dgram.pre" } else { "dgram.outside_pre" });
+                out.count(&format!("len.{}", len_class(b.len())));
+                out.count(if h.df() { "df.set" } else { "df.clear" });
+                self.cur = vec![(h.to_real(), Message::new(b.clone()))];
+                out.line(line, &format!("ok {}", digest(&b)));
+                self.orig = Some((h, b));
+            }
+            ["frag", m] => {
+                let Ok(mtu) = m.parse::<u16>() else { return out.line(line, "bad-op") };
+                if mtu < 68 {
+                    self.in_pre = false;
+                }
+                out.count(if (mtu as i32 - 20) % 8 == 0 { "mtu.aligned" } else { "mtu.unaligned" });
+                let mut shown = vec![];
+                let mut next: Vec<(Ipv4Header, Message)> = vec![];
+                let cur = std::mem::take(&mut self.cur);
+                for (ph, pm) in cur.iter() {
+                    // the Rust recursion does not terminate for 0 <= mtu - ihl*4 < 8 (stack
+                    // overflow aborts the process): never call it there
+                    let ihl4 = ph.ihl as u16 * 4;
+                    if ph.total_length > mtu && ph.flags.may_fragment() && mtu >= ihl4 && (mtu - ihl4) < 8 {
+                        shown.push("P:diverges:Fragmentation::fragment".to_string());
+                        out.count("result.diverges_skipped");
+                        continue;
+                    }
+                    let r = catch(|| fragment(*ph, pm.clone(), mtu));
+                    match &r {
+                        Err(p) => {
+                            let c = classify(p);
+                            out.count(&format!("result.{}", c));
+                            if self.in_pre {
+                                out.fail(
+                                    &format!("fragment panicked under the precondition: {} ({}) on piece {} mtu {}", c, p.msg, H::from_real(ph).show(), mtu),
+                                    &format!("panic fragment {}", source_line_text(&p.file, p.line)),
+                                );
+                            }
+                            shown.push(format!("P:{}", c));
+                        }
+                        Ok(Fragments::DontFragment((h, m))) => {
+                            out.count("result.dont_fragment");
+                            shown.push(format!("D{}", show_frag(h, m)));
+                            next.push((*h, m.clone()));
+                        }
+                        Ok(Fragments::Discard) => {
+                            out.count("result.discard");
+                            shown.push("X".into());
+                        }
+                        Ok(Fragments::Fragmented(l)) => {
+                            out.count("result.fragmented");
+                            out.count(&format!("pieces.{}", count_class(l.len())));
+                            shown.push(format!("F[{}]", l.iter().map(|(h, m)| show_frag(h, m)).collect::<Vec<_>>().join(",")));
+                            next.extend(l.iter().cloned());
+                            if l.len() >= 2 {
+                                self.fragmented_hops += 1;
+                            }
+                        }
+                    }
+                    if self.in_pre {
+                        if let Ok(v) = &r {
+                            self.oracle_piece(ph, pm, mtu, v, out);
+                        }
+                    }
+                }
+                self.cur = next;
+                out.line(line, &compress(&format!("{} n={}", shown.join(" "), self.cur.len())));
+                if self.in_pre {
+                    self.oracle_hop(mtu, cur.is_empty(), out);
+                }
+            }
+            _ => out.line(line, "bad-op"),
+        }
+    }
+
+    /// passthrough / discard / fragmented decision for one piece
+    fn oracle_piece(&self, ph: &Ipv4Header, pm: &Message, mtu: u16, r: &Fragments, out: &mut Out) {
+        let p = H::from_real(ph);
+        let want = if p.tl <= mtu {
+            "passthrough"
+        } else if p.df() {
+            "discard"
+        } else {
+            "fragmented"
+        };
+        let ok = match (want, r) {
+            ("passthrough", Fragments::DontFragment((h, m))) => H::from_real(h) == p && m.to_vec() == pm.to_vec(),
+            ("discard", Fragments::Discard) => true,
+            ("fragmented", Fragments::Fragmented(l)) => l.len() >= 2,
+            _ => false,
+        };
+        if !ok {
+            out.fail(
+                &format!("piece {} (payload {} octets) at mtu {} should be {} but fragment returned {}", p.show(), pm.len(), mtu, want, kind(r)),
+                &format!("decision {}", want),
+            );
+        }
+    }
+
+    /// the travelling pieces relative to the ORIGINAL datagram
+    fn oracle_hop(&self, mtu: u16, was_empty: bool, out: &mut Out) {
+        let Some((oh, ob)) = &self.orig else { return };
+        if was_empty {
+            return;
+        }
+        if oh.df() {
+            // a DF datagram either is still whole or was dropped at the first hop it did not fit
+            let whole = self.cur.len() == 1 && H::from_real(&self.cur[0].0) == *oh && self.cur[0].1.to_vec() == *ob;
+            if !(self.cur.is_empty() || whole) {
+                out.fail("a datagram with DF set was altered", "df altered");
+            } else if self.cur.is_empty() && oh.tl <= mtu {
+                out.fail("a fitting DF datagram was discarded", "df discarded although it fits");
+            } else if whole && oh.tl > mtu {
+                out.fail("a DF datagram larger than the MTU was forwarded", "df forwarded although too large");
+            }
+            return;
+        }
+        if self.cur.is_empty() {
+            return out.fail("all pieces of a fragmentable datagram vanished", "pieces vanished");
+        }
+        let mut pos: usize = 0; // octets of the original payload covered so far
+        let n = self.cur.len();
+        for (i, (h, m)) in self.cur.iter().enumerate() {
+            let g = H::from_real(h);
+            let b = m.to_vec();
+            let last = i + 1 == n;
+            if g.tl > mtu {
+                return out.fail(&format!("piece {} has total_length {} > mtu {}", i, g.tl, mtu), "fits");
+            }
+            if g.tl as usize != 20 + b.len() || m.len() != b.len() {
+                return out.fail(&format!("piece {} total_length {} but payload {} octets", i, g.tl, b.len()), "length field");
+            }
+            if pos % 8 != 0 || g.fo as usize != oh.fo as usize + pos / 8 {
+                return out.fail(&format!("piece {} offset field {} but it starts at octet {} of the original (original offset {})", i, g.fo, pos, oh.fo), "offset");
+            }
+            if pos + b.len() > ob.len() || ob[pos..pos + b.len()] != b[..] {
+                return out.fail(&format!("piece {} payload is not octets {}..{} of the original payload", i, pos, pos + b.len()), "content");
+            }
+            if !last && (b.is_empty() || b.len() % 8 != 0) {
+                return out.fail(&format!("non-final piece {} has {} octets (not a positive multiple of 8)", i, b.len()), "block multiple");
+            }
+            if !last && !g.mf() {
+                return out.fail(&format!("piece {} of {} lacks MF", i, n), "mf missing");
+            }
+            if last && g.mf() != oh.mf() {
+                return out.fail(&format!("final piece MF={} but the original datagram had MF={}", g.mf(), oh.mf()), "mf on final piece");
+            }
+            if g.df() != oh.df() || g.ident != oh.ident || g.tos != oh.tos || g.ttl != oh.ttl || g.proto != oh.proto
+                || g.src != oh.src || g.dst != oh.dst || g.ck != oh.ck || g.ihl != oh.ihl
+            {
+                return out.fail(&format!("piece {} changed a preserved field: {} vs original {}", i, g.show(), oh.show()), "field changed");
+            }
+            pos += b.len();
+        }
+        if pos != ob.len() {
+            out.fail(&format!("pieces cover {} of {} payload octets", pos, ob.len()), "coverage");
+        }
+    }
+}
+
+fn kind(r: &Fragments) -> &'static str {
+    match r {
+        Fragments::Fragmented(_) => "Fragmented",
+        Fragments::DontFragment(_) => "DontFragment",
+        Fragments::Discard => "Discard",
+    }
+}
+
+fn len_class(n: usize) -> &'static str {
+    match n {
+        0 => "0",
+        1..=9 => "1-9",
+        10..=99 => "10-99",
+        100..=1499 => "100-1499",
+        1500..=9999 => "1500-9999",
+        10000..=65514 => "10000-65514",
+        65515 => "65515",
+        _ => ">65515",
+    }
+}
+
+fn count_class(n: usize) -> &'static str {
+    match n {
+        0..=1 => "0-1",
+        2 => "2",
+        3..=9 => "3-9",
+        10..=99 => "10-99",
+        _ => ">=100",
+    }
+}
+
+fn body_spec(rng: &mut Rng, len: usize) -> String {
+    if len <= 48 {
+        format!("h:{}", hex(&rng.bytes(len)))
+    } else {
+        format!("g:{}:{}", rng.below(1 << 32), len)
+    }
+}
+
+fn gen_mtu(rng: &mut Rng) -> u64 {
+    match rng.below(10) {
+        0 => 68,
+        1 => *rng.pick(&[69u64, 70, 75, 76, 77, 576, 1500, 65535, 1280, 1499, 1501]),
+        2..=4 => rng.range(68, 300),
+        5..=7 => rng.range(68, 2000),
+        _ => rng.range(68, 65535),
+    }
+}
+
+/// one case: a datagram and a chain of 1..4 (mostly decreasing) MTUs
+fn gen_case(rng: &mut Rng) -> Vec<String> {
+    let hops = rng.range(1, 4) as usize;
+    let mut mtus: Vec<u64> = (0..hops).map(|_| gen_mtu(rng)).collect();
+    if rng.chance(9, 10) {
+        mtus.sort_by(|a, b| b.cmp(a));
+        mtus.dedup();
+    }
+    let m0 = mtus[0] as usize;
+    let outside = rng.chance(1, 12);
+    // payload length
+    let len: usize = match rng.below(20) {
+        0 => *rng.pick(&[0usize, 1, 7, 8, 9]),
+        1..=3 => (m0 + rng.range(0, 2) as usize).saturating_sub(21).min(65515), // mtu-21 .. mtu-19
+        4 => 65515,
+        5 => 65515 - rng.below(20) as usize,
+        6..=8 => {
+            // around a multiple of the block payload of some MTU of the chain
+            let m = *rng.pick(&mtus) as usize;
+            let blk = (m - 20) / 8 * 8;
+            (blk * rng.range(1, 6) as usize + rng.range(0, 2) as usize).saturating_sub(1).min(65515)
+        }
+        9..=14 => rng.range(0, 3000) as usize,
+        15..=17 => rng.range(0, 20000) as usize,
+        _ => rng.range(0, 65515) as usize,
+    };
+    let len = if outside { len.min(4000) } else { len };
+    let mut ihl = 5u64;
+    let mut tl = 20 + len as u64;
+    let mut fo = match rng.below(6) {
+        0..=2 => 0,
+        3 => 8191,
+        _ => rng.range(0, 8191),
+    };
+    let mut blen = len;
+    if outside {
+        match rng.below(5) {
+            4 => {
+                // MTUs below the IPv4 minimum (>= 28 so that the recursion still terminates)
+                mtus = mtus.iter().map(|m| 28 + m % 40).collect();
+            }
+            0 => {
+                // other header lengths; keep away from the non-terminating region
+                ihl = *rng.pick(&[0u64, 4, 6, 15, 60, 255]);
+                mtus = mtus.into_iter().map(|m| if m >= ihl * 4 && m - ihl * 4 < 8 { m + 8 } else { m }).collect();
+            }
+            1 => blen = if rng.chance(1, 2) { len / 2 } else { len + 9 }, // body shorter / longer than the header says
+            2 => fo = 65535 - rng.below(600),                         // not a 13-bit offset: u16 overflow of FO + NFB
+            _ => {
+                tl = rng.range(0, 65535);
+            }
+        }
+    }
+    if ihl == 5 && !outside {
+        tl = 20 + blen as u64;
+    }
+    let flags = if rng.chance(1, 10) { rng.below(256) } else { rng.below(4) };
+    let flags = if rng.chance(1, 5) { flags | 2 } else { flags & !2 }; // DF on in ~20 %
+    let dgram = format!(
+        "dgram {} {} {} {} {} {} {} {} {} {} {} {}",
+        ihl,
+        rng.below(256),
+        tl,
+        rng.below(65536),
+        fo,
+        flags,
+        rng.below(256),
+        rng.below(256),
+        rng.below(65536),
+        rng.below(1 << 32),
+        rng.below(1 << 32),
+        body_spec(rng, blen.min(65600))
+    );
+    let mut ops = vec![dgram];
+    for m in mtus {
+        ops.push(format!("frag {}", m));
+    }
+    ops
+}
+
+fn run_case(ops: &[String], out: &mut Out) {
+    let mut ex = Exec::new();
+    for op in ops {
+        ex.apply(op, out);
+    }
+    if ex.in_pre && ex.fragmented_hops >= 1 {
+        out.mark_nontrivial();
+    }
+    out.count(&format!("pieces_split_in_case.{}", ex.fragmented_hops.min(4)));
+}
+
 pub fn run(args: &Args) {
-    eprintln!("hcore: {} not implemented yet", args.prop);
-    std::process::exit(2);
+    // deep recursion of the fragmenter for small MTUs: give the worker a large stack
+    let a = Args { prop: args.prop.clone(), seed: args.seed, cases: args.cases, out: args.out.clone(), replay: args.replay.clone(), extra: args.extra.clone() };
+    std::thread::Builder::new().stack_size(256 << 20).spawn(move || run_inner(&a)).unwrap().join().unwrap();
+}
+
+fn run_inner(args: &Args) {
+    install_panic_hook();
+    let mut out = Out::new(&args.out);
+    let rule = "one datagram (payload 0..65515 biased to 0,1,7,8,9, mtu-21..mtu-19, multiples of the block payload +-1, 65515; random fields; DF on ~20%; ~8% outside the precondition: ihl != 5, body/total_length mismatch, 16-bit offsets) through a chain of 1..4 mostly decreasing MTUs 68..65535; every Fragments value compared; a case is non-trivial if the datagram satisfies the precondition and at least one hop split a piece; distinct = hash of its op lines";
+    if let Some(rp) = &args.replay {
+        out.begin_case(0);
+        let ops: Vec<String> = read_ops(rp).into_iter().filter(|l| !l.starts_with("case ")).collect();
+        run_case(&ops, &mut out);
+        out.mark_nontrivial();
+        out.end_case();
+        out.finish(rule);
+        return;
+    }
+    let mut rng = Rng::new(args.seed);
+    if args.prop == "c10-sweep" {
+        // every MTU lo..=hi x payload lengths around k * block payload, then a second hop at 68
+        let lo: u64 = args.extra.get("mtu_lo").and_then(|s| s.parse().ok()).unwrap_or(68);
+        let hi: u64 = args.extra.get("mtu_hi").and_then(|s| s.parse().ok()).unwrap_or(130);
+        let mut c = 0;
+        for mtu in lo..=hi {
+            let blk = (mtu - 20) / 8 * 8;
+            let mut lens: Vec<u64> = vec![mtu - 21, mtu - 20, mtu - 19];
+            for k in 1..=3 {
+                lens.extend_from_slice(&[k * blk - 1, k * blk, k * blk + 1, k * blk + 7, k * blk + 8]);
+            }
+            for len in lens {
+                let mut r = rng.fork();
+                out.begin_case(c);
+                let flags = r.below(2);
+                let ops = vec![
+                    format!(
+                        "dgram 5 {} {} {} {} {} {} {} {} {} {} {}",
+                        r.below(256), 20 + len, r.below(65536), r.below(8192), flags, r.below(256), r.below(256), r.below(65536),
+                        r.below(1 << 32), r.below(1 << 32), body_spec(&mut r, len as usize)
+                    ),
+                    format!("frag {}", mtu),
+                    format!("frag {}", 68 + r.below(mtu - 67)),
+                ];
+                run_case(&ops, &mut out);
+                out.end_case();
+                c += 1;
+            }
+        }
+        out.finish("sweep: every MTU of the range x payload lengths mtu-21..mtu-19 and k*block-1..k*block+8 (k=1..3), then a second hop at a smaller MTU");
+        return;
+    }
+    for c in 0..args.cases {
+        let mut r = rng.fork();
+        out.begin_case(c);
+        let ops = gen_case(&mut r);
+        run_case(&ops, &mut out);
+        out.end_case();
+    }
+    out.finish(rule);
 }
